@@ -1103,7 +1103,8 @@ impl TDigestView<'_> {
                     at_min / 2. / centroids_weight
                 } else {
                     (at_min
-                        + (((value - self.min) / (first_mean - self.min)) * (half_weight - at_min)))
+                        + (difference_ratio(value, self.min, first_mean, self.min)
+                            * (half_weight - at_min)))
                         / centroids_weight
                 });
             }
@@ -1121,7 +1122,8 @@ impl TDigestView<'_> {
                     1. - (at_max / 2. / centroids_weight)
                 } else {
                     1.0 - ((at_max
-                        + (((self.max - value) / (self.max - last_mean)) * (half_weight - at_max)))
+                        + (difference_ratio(self.max, value, self.max, last_mean)
+                            * (half_weight - at_max)))
                         / centroids_weight)
                 });
             }
@@ -1163,8 +1165,12 @@ impl TDigestView<'_> {
         Some(
             if self.centroids[upper].mean - self.centroids[lower].mean > 0. {
                 (weight_below
-                    + (weight_delta * (value - self.centroids[lower].mean)
-                        / (self.centroids[upper].mean - self.centroids[lower].mean)))
+                    + scaled_difference_ratio(
+                        weight_delta,
+                        value,
+                        self.centroids[lower].mean,
+                        self.centroids[upper].mean,
+                    ))
                     / centroids_weight
             } else {
                 (weight_below + weight_delta / 2.) / centroids_weight
@@ -1195,19 +1201,19 @@ impl TDigestView<'_> {
         // at least 2 centroids
         let first_weight = self.centroids[0].weight();
         if first_weight > 1. && weight < first_weight / 2. {
-            return Some(
-                self.min
-                    + (((weight - 1.) / ((first_weight / 2.) - 1.))
-                        * (self.centroids[0].mean - self.min)),
-            );
+            return Some(lerp(
+                self.min,
+                self.centroids[0].mean,
+                (weight - 1.) / ((first_weight / 2.) - 1.),
+            ));
         }
         let last_weight = self.centroids[num_centroids - 1].weight();
         if last_weight > 1. && (centroids_weight - weight <= last_weight / 2.) {
-            return Some(
-                self.max
-                    - (((centroids_weight - weight - 1.) / ((last_weight / 2.) - 1.))
-                        * (self.max - self.centroids[num_centroids - 1].mean)),
-            );
+            return Some(lerp(
+                self.max,
+                self.centroids[num_centroids - 1].mean,
+                (centroids_weight - weight - 1.) / ((last_weight / 2.) - 1.),
+            ));
         }
 
         // interpolate between extremes
@@ -1382,6 +1388,45 @@ mod scale_function {
     }
 }
 
-const fn weighted_average(x1: f64, w1: f64, x2: f64, w2: f64) -> f64 {
-    (x1 * w1 + x2 * w2) / (w1 + w2)
+fn weighted_average(x1: f64, w1: f64, x2: f64, w2: f64) -> f64 {
+    let average = (x1 * w1 + x2 * w2) / (w1 + w2);
+    if average.is_finite() {
+        return average;
+    }
+    // a product or their sum overflowed (finite values near f64::MAX): scale the weights first
+    let total = w1 + w2;
+    (x1 * (w1 / total) + x2 * (w2 / total)).clamp(x1.min(x2), x1.max(x2))
+}
+
+/// `(a - b) / (c - d)` for finite operands with `0 <= a - b <= c - d`: the difference of two
+/// finite values of opposite sign may overflow; halving the operands first cannot.
+fn difference_ratio(a: f64, b: f64, c: f64, d: f64) -> f64 {
+    let denominator = c - d;
+    if denominator.is_finite() {
+        (a - b) / denominator
+    } else {
+        (a / 2. - b / 2.) / (c / 2. - d / 2.)
+    }
+}
+
+/// `weight * (value - lower) / (upper - lower)` for finite `lower <= value <= upper`,
+/// `lower < upper`: neither the product nor the differences may overflow.
+fn scaled_difference_ratio(weight: f64, value: f64, lower: f64, upper: f64) -> f64 {
+    let span = upper - lower;
+    let scaled = weight * (value - lower) / span;
+    if span.is_finite() && scaled.is_finite() {
+        scaled
+    } else {
+        weight * difference_ratio(value, lower, upper, lower)
+    }
+}
+
+/// `from + t * (to - from)` for `0 <= t <= 1` and finite ends; `to - from` may overflow.
+fn lerp(from: f64, to: f64, t: f64) -> f64 {
+    let span = to - from;
+    if span.is_finite() {
+        from + t * span
+    } else {
+        from * (1. - t) + to * t
+    }
 }
